@@ -114,12 +114,23 @@ class SolverModel:
 
 
 # ---------------------------------------------------------------------------
+def level_name(fn):
+    from ..core.template import find
+    f = find("_l_ = kwargs.get('level', 0)", fn)
+    if len(f) != 1:
+        raise AnalysisError("anchor vanished: level = kwargs.get('level', 0) "
+                            'in multigrid()')
+    return f[0][1]['_l_']
+
+
 def level0_prune(cfg, fn):
     """Edge pruning for multigrid specialised to level == 0."""
+    lv = level_name(fn)
+
     def prune(a, b, lab):
         if a.kind == 'test' and lab in ('T', 'F'):
             try:
-                v = FiniteEval({'level': 0}).ev(a.ast)
+                v = FiniteEval({lv: 0}).ev(a.ast)
             except AnalysisError:
                 return False
             except Exception:
@@ -305,10 +316,11 @@ def certify_krylov(ctx, M, site, guards):
                                at.value <= 1e-20):
         return False, ('absolute tolerance of the Krylov call can satisfy '
                        'the test before the relative one')
-    if ast.unparse(kws.get('A', ast.Constant(None))) != 'A':
+    if 'A' not in kws or not isinstance(kws['A'], ast.Name):
         return False, 'system operator keyword missing'
+    aname = kws['A'].id
     adef = [n for n in ast.walk(kry) if isinstance(n, ast.Assign) and
-            ast.unparse(n.targets[0]) == 'A']
+            ast.unparse(n.targets[0]) == aname]
     mv = None
     for a in adef:
         for k in getattr(a.value, 'keywords', []):
@@ -415,9 +427,14 @@ def rule_R2(ctx, M):
     sm, fn = M.sm, M.solve
     var, ef = M.var, M.ef
     # -- exit status ---------------------------------------------------------------
+    dicts0 = [n for n in ast.walk(fn) if isinstance(n, ast.Dict) and any(
+        isinstance(k, ast.Constant) and k.value == 'exit' for k in n.keys)]
+    ctx.anchor(len(dicts0) == 1, 'info dict literal in solve()')
+    esname = [ast.unparse(v) for k, v in zip(dicts0[0].keys, dicts0[0].values)
+              if isinstance(k, ast.Constant) and k.value == 'exit'][0]
     es = [n for n in ast.walk(fn) if isinstance(n, ast.Assign) and
-          ast.unparse(n.targets[0]) == 'exit_status']
-    ctx.anchor(len(es) >= 1, 'exit_status assignment in solve()')
+          ast.unparse(n.targets[0]) == esname]
+    ctx.anchor(len(es) >= 1, 'exit status assignment in solve()')
     for n in es:
         res = {}
         for msg in (MSG, 'STAGNATED', ''):
@@ -436,7 +453,7 @@ def rule_R2(ctx, M):
     dicts = [n for n in ast.walk(fn) if isinstance(n, ast.Dict) and any(
         isinstance(k, ast.Constant) and k.value == 'exit' for k in n.keys)]
     ctx.anchor(len(dicts) == 1, 'info dict literal in solve()')
-    want = {'exit': 'exit_status', 'exit_message': f'{var}.exit_message',
+    want = {'exit': esname, 'exit_message': f'{var}.exit_message',
             'abs_error': f'{var}.l2',
             'rel_error': f'{var}.l2 / {var}.l2_refe',
             'ref_error': f'{var}.l2_refe', 'tol': f'{var}.tol'}
@@ -786,9 +803,13 @@ def rule_R6(ctx, M):
             node = node.orelse[0]
         else:
             break
+    rets0 = [n for n in ast.walk(term) if isinstance(n, ast.Return)]
+    ctx.anchor(len(rets0) == 1 and isinstance(rets0[0].value, ast.Name),
+               '_terminate returns its finished flag')
+    fin = rets0[0].value.id
     for test, body in arms:
         sets_finished = any(isinstance(s, ast.Assign) and ast.unparse(
-            s.targets[0]) == 'finished' and ast.unparse(s.value) == 'True'
+            s.targets[0]) == fin and ast.unparse(s.value) == 'True'
             for s in ast.walk(ast.Module(body, [])))
         if not sets_finished:
             continue
@@ -819,7 +840,7 @@ def rule_R6(ctx, M):
     # return value of _terminate is `finished`
     rets = [n for n in ast.walk(term) if isinstance(n, ast.Return)]
     ctx.check('C01.R6.message', '_terminate returns finished',
-              len(rets) == 1 and ast.unparse(rets[0].value) == 'finished',
+              len(rets) == 1 and ast.unparse(rets[0].value) == fin,
               '_terminate does not return its finished flag',
               ctx.where(sm, term))
     # krylov: info > 0 arm stores a non-success message unconditionally
